@@ -22,3 +22,23 @@ t_f         = a:t ; text=vis
 
 def txbody():
     return parse(TXBODY, NS, "txBody")
+
+# ECMA-376 Part 1, 19.3.1.21 (graphicFrame), 21.1.3 (DrawingML tables): tbl -> tblPr, tblGrid, tr*; tr -> tc*; tc -> txBody, tcPr
+FRAME = """
+graphicFrame = p:graphicFrame -> nvGraphicFramePr xfrm graphic
+nvGraphicFramePr = p:nvGraphicFramePr
+xfrm        = p:xfrm
+graphic     = a:graphic -> graphicData
+graphicData = a:graphicData -> tbl
+tbl         = a:tbl -> tblPr tblGrid tr
+tblPr       = a:tblPr
+tblGrid     = a:tblGrid
+tr          = a:tr -> tc
+tc          = a:tc -> txBody_c tcPr
+tcPr        = a:tcPr
+txBody_c    = a:txBody -> bodyPr lstStyle p
+""" + TXBODY.replace("txBody      = p:txBody -> bodyPr lstStyle p\n", "")
+
+
+def graphic_frame():
+    return parse(FRAME, NS, "graphicFrame")
